@@ -357,16 +357,18 @@ PROPS = {
         'rule': 'conc-steer: ONE operation A runs with every log record enabled and is held at its k-th record (k sweeps all of them) while 1-2 operations B of another client run to completion or block on A\'s lock; histories judged by the same oracle; conc-one: 2-3 client goroutines, 2-4 operations each (AddFact on 3 shared ids, RemFact, GetFact, SearchFacts, AddRule/RemRule on 3 shared rule ids, some rules with an expiration, FindRules dispatch) on one location (either state kind), '
                 '1 case in 6 with a fact and a rule that expire just before the clients are released (their first reads purge concurrently); released together; every operation records invocation/response instants; after quiescence every id is read through the live location and through a location rebuilt from storage; each case in a child process; '
                 'race runs: the same cases under the Go race detector; non-trivial = two operations of different clients overlap in time; distinct by hash of inputs',
-        'refuted': ['same_id_adds_can_diverge_counterexample (D44)'],
+        'refuted': [],
         'level_text': 'Coq theorems: lin_sound (the linearizability oracle is sound: when the extracted checker accepts a history there is a real-time-respecting sequential order under which the sequential model returns every observed result and ends in the observed final memory and storage), '
-                      'disjoint ids commute in the sequential model, the two-phase model of Add with its divergence witness (D44), and by reflection over gen/LockTable.v (regenerated from the source): every access to the fact maps and indexes happens under the state lock. '
+                      'disjoint ids commute in the sequential model, and by reflection over gen/LockTable.v (regenerated from the source): every access to the fact maps and indexes happens under the state lock, every mutation and every storage write under the WRITE lock (store_writes_hold_write_lock), an Add is ONE critical section around its memory and storage phases (add_is_one_critical_section; Clear, Delete and the sections of Rem likewise); '
+                      'over a model of the exclusive lock: locked_writers_never_diverge (ANY two writers whose actions lie in critical sections that preserve memory/storage agreement, EVERY lock-respecting schedule) and its instances for the writers read off the table, same_id_adds_never_diverge (two Adds, Add and Rem, Add and Clear on ONE id) and same_id_adds_are_serial. '
                       'Tie to the code: concurrent histories of the real location judged by the extracted oracle; race detector on the same harness (a report whose access pair no known finding lists is a violation).',
         'level_note': 'PARTIAL: Go data races, "concurrent map writes" crashes and deadlocks are runtime facts; the theorems cover the sequential specification, the oracle and the lock-granularity table, the race detector and the child-process watchdog are tests. '
-                      'Found by this check and repaired in /repo (fix: commits): unsynchronised parsed-rule cache (data races, possible crash, stale rule), ExtractRule writing into the shared rule body under a read lock, purge of expired items by readers without the write lock. '
-                      'Open finding D44: overlapping writes to ONE id are applied to memory and to storage in different orders (memory update and storage write are not one critical section): memory and storage diverge. '
+                      'Found by this check and repaired in /repo (fix: commits): unsynchronised parsed-rule cache (data races, possible crash, stale rule), ExtractRule writing into the shared rule body under a read lock, purge of expired items by readers without the write lock, memory update and storage write of a write in two critical sections. '
+                      'D44 (overlapping writes to ONE id were applied to memory and to storage in different orders, because the memory update and the storage write were not one critical section: memory and storage diverged) was found by conc-one, made deterministic by conc-steer and is repaired in /repo: both happen under the write lock now, at the price of storage I/O under the location lock (as Rem already did); the former counterexample same_id_adds_can_diverge is replaced by the theorem same_id_adds_never_diverge, and overlapping same-id writes must be linearizable like every other history. '
                       'D52 (readers purged expired items without the write lock: data races, "lost rule" errors, a crash) first surfaced as the exception lists the lock-table theorems needed, was then reproduced (race detector, non-linearizable history, crash) and is repaired in /repo; the lock-table theorems now hold without exceptions.',
         'technique': 'Coq soundness proof of a linearizability oracle over the sequential model + reflection over a source-derived lock table; stress with linearizability checking and the Go race detector',
-        'assumptions': ['the recorded invocation/response instants bracket the operation', 'search budget of the oracle: 20000 nodes (exhaustion is counted as ambiguous, never as failure)'],
+        'assumptions': ['the recorded invocation/response instants bracket the operation', 'search budget of the oracle: 20000 nodes (exhaustion is counted as ambiguous, never as failure)',
+                        'lock model of the critical-section theorems: sync.RWMutex.Lock is exclusive; two writers; the ids a Rem cascades to or purges are parameters'],
         'partial': 'runtime concurrency facts are tested, not proved',
     },
     'C11': {
